@@ -12,6 +12,7 @@
       Clear empties; Equal is true exactly for identical contents (initialised maps), false for any non-MapMemory.
 -/
 import Z80.Spec.MemIO
+import Z80.Proofs.Assoc
 
 namespace Z80.Props.C15
 open Z80 Z80.Spec.MemIO
@@ -287,15 +288,23 @@ def WF (w : World) : Prop :=
     | .dm i | .dio i | .mm (some i) => i < w.heap.length
     | _ => True
 
+/-- the clone's contents answer every read as the source does -/
+theorem cloneOf_get (m : Assoc) (a : U16) : mapGet (cloneOf m) a = mapGet m a := by
+  unfold mapGet cloneOf
+  have := Z80.Proofs.Assoc.find_live_reverse m a
+  unfold GoStore.assocFind at this
+  unfold assocGet?
+  rw [this]
+
 /-- Clone: the new variable holds a FRESH object (no existing handle refers to it) whose contents equal the source's -/
 theorem C15_clone_fresh (w : World) (r src i : Nat) (m : Assoc) (hwf : WF w)
     (hs : w.var src = some (.mm (some i))) (hm : w.map? i = some m) :
     let w' := (step w (.clone r src)).1
-    w'.var r = some (.mm (some w.heap.length)) ∧ w'.map? w.heap.length = some m ∧
+    w'.var r = some (.mm (some w.heap.length)) ∧ w'.map? w.heap.length = some (cloneOf m) ∧ (∀ a, mapGet (cloneOf m) a = mapGet m a) ∧
     (∀ q h, w.var q = some h → h ≠ .mm (some w.heap.length)) ∧
     (∀ j, j < w.heap.length → w'.heap[j]? = w.heap[j]?) := by
   simp only [step, hs, hm]
-  refine ⟨?_, ?_, ?_, ?_⟩
+  refine ⟨?_, ?_, cloneOf_get m, ?_, ?_⟩
   · simp [World.var, World.bind, World.alloc]
   · simp [World.map?, World.bind, World.alloc]
   · intro q h hq e
